@@ -62,7 +62,7 @@ def check(case):
         try:
             sw = mem.get_ideal_selectivity(Tq, a, b, 'weight'); sm = mem.get_ideal_selectivity(Tq, a, b, 'molar')
             if abs(sm - sw * b.molecular_weight / a.molecular_weight) > 1e-9 * abs(sm): fails.append("molar selectivity %r != weight %r * M2/M1" % (sm, sw))
-        except ValueError: pass
+        except (ValueError, ZeroDivisionError): pass       # a zero permeance in the denominator is a legitimate error exit
     c = comps[case['components'][0]]
     if case['experiments'][case['components'][0]][0][2] is not None or len(case['experiments'][case['components'][0]]) > 1:
         Tq = case['queries'][0]; P = mem.get_permeance(Tq, c).value
